@@ -142,8 +142,14 @@ def observe(binp, src, work, case, flags, facts, tag, extra_args=()):
     muts = runs.strace_mutations(log, root)
     inside = [(sc, pth, fl, ok) for sc, pth, fl, ok in muts if pth.startswith(root + os.sep)]
     res["syscalls_inside"] = len(inside)
+    cgo_tmp = re.compile(r"(^|/)[^/]*_C\d+(/|$)")
     for sc, pth, fl, ok in inside:
         rel = os.path.relpath(pth, root)
+        if "cgo" in case["what"] and cgo_tmp.search(rel) and not any(cgo_tmp.search(p) for _, p in diff):
+            # x/tools' loader runs `go tool cgo` in a temporary directory <import path>_C<random> NEXT TO the package
+            # directory and removes it again; nothing of it is left (the snapshot diff is clean)
+            res["cgo_tmp_syscalls"] = res.get("cgo_tmp_syscalls", 0) + 1
+            continue
         if rel == os.path.join(pkgrel, DERIVED):
             if sc in ("open", "openat") and norm_flags(fl) == {"O_RDWR", "O_CREAT", "O_TRUNC"}:
                 continue  # os.Create in (*pkg).Print
@@ -176,7 +182,9 @@ def run(rep):
                        "run performed at least one file-system effect inside the package tree")
     rep.assumptions += ["go/format and go/parser are trusted (the oracle uses them independently of goderive: positions from its own parse of the original text)",
                         "strace -f -e trace=file sees every path-based mutating system call of the process tree",
-                        "the loader (x/tools) and gotool only read the file system: checked by the strace log of every run, not proved"]
+                        "the loader (x/tools) and gotool only read the file system: checked by the strace log of every run, not proved; one exception is modelled: "
+                        "for a package that imports \"C\" the loader runs `go tool cgo` in a temporary directory <import path>_C<random> next to the package "
+                        "directory and removes it again (transient; nothing may be left)"]
     facts = runs.facts_and_proof(rep, "C10")
     rep.cov["facts"] = {k: facts.get(k) for k in ("fsCallSites", "rewriteOpenFlags", "externalCalls")}
     _, binp = common.build_goderive()
